@@ -6,8 +6,9 @@ use crate::hast::{H, hb};
 use crate::props::c08::map_h;
 use crate::util::Rng;
 
-pub const KINDS: [&str; 19] = [
+pub const KINDS: [&str; 20] = [
     "decoy-trap",
+    "swap-operands-of-operator",
     "change-type-argument",
     "reference-group-definition",
     "literal-kind",
@@ -201,6 +202,7 @@ pub fn perturb(h: &H, r: &mut Rng) -> Option<(H, &'static str)> {
                     H::Var(v) if tparams.contains(v) => other_tparam(v, pick).map(|o| H::Lam(nm.clone(), *im, Some(hb(H::Var(o))), b.clone())),
                     _ => None,
                 },
+                ("swap-operands-of-operator", H::Bin(op, a, b)) if !matches!(op, Op::Add | Op::Mul | Op::Eq) && a != b => Some(H::Bin(*op, b.clone(), a.clone())),
                 ("decoy-trap", H::Lit(_)) => Some(trap_int.clone()),
                 ("decoy-trap", H::True | H::False) => Some(trap_bool.clone()),
                 ("literal-kind", H::Lit(_)) => Some(if coin { H::True } else { H::Type }),
